@@ -1,16 +1,48 @@
-// uuid::Uuid: a 128-bit value compared by value.  ASSUMED contract.
+// uuid::Uuid: an opaque 128-bit token compared by value.  ASSUMED contract.
+//
+// Version-4 UUIDs are drawn from the operating system's entropy source (getrandom), not from the simulation's seeded
+// rng.  Creating such a token does not by itself make an execution irreproducible: two runs that differ only in the
+// token values are equal up to a renaming of tokens as long as (a) the value is never OBSERVED other than through `==`
+// between tokens of the same run and (b) no two tokens of a run collide (probability 2^-122 per pair: assumed, listed).
+// The stub therefore gives `new_v4` no precondition and instead puts the C01 obligation on every operation that would
+// let the value leak into observable behaviour (ordering, hashing, printing, conversion): each of them requires
+// `ambient_nondeterminism_allowed()`, which nothing establishes.  The representation is private to this module, so
+// extracted code cannot reach it any other way; an operation not listed here does not type-check (=> UNDECIDED).
 #[derive(Clone, Copy, PartialEq, Eq)]
-pub struct Uuid { pub bits: u128 }
+pub struct Uuid { bits: u128 }
 impl PartialEqSpecImpl for Uuid {
     open spec fn obeys_eq_spec() -> bool { true }
     open spec fn eq_spec(&self, other: &Uuid) -> bool { *self == *other }
 }
 impl Uuid {
-    // Version-4 UUIDs are drawn from the operating system's entropy source (getrandom), not from
-    // the simulation's seeded rng: an ambient source of nondeterminism.
     #[verifier::external_body]
     pub fn new_v4() -> (r: Uuid)
+    { unimplemented!() }
+
+    // ---- observers: every one of them leaks the ambient value ----
+    #[verifier::external_body]
+    pub fn as_u128(&self) -> (r: u128)
         requires
-            [nd.uuid_v4] ambient_nondeterminism_allowed(),
+            [nd.uuid_v4.as_u128] ambient_nondeterminism_allowed(),
+    { unimplemented!() }
+    #[verifier::external_body]
+    pub fn as_bytes(&self) -> (r: &[u8; 16])
+        requires
+            [nd.uuid_v4.as_bytes] ambient_nondeterminism_allowed(),
+    { unimplemented!() }
+    #[verifier::external_body]
+    pub fn to_string(&self) -> (r: String)
+        requires
+            [nd.uuid_v4.to_string] ambient_nondeterminism_allowed(),
+    { unimplemented!() }
+    #[verifier::external_body]
+    pub fn cmp(&self, other: &Uuid) -> (r: core::cmp::Ordering)
+        requires
+            [nd.uuid_v4.cmp] ambient_nondeterminism_allowed(),
+    { unimplemented!() }
+    #[verifier::external_body]
+    pub fn partial_cmp(&self, other: &Uuid) -> (r: Option<core::cmp::Ordering>)
+        requires
+            [nd.uuid_v4.partial_cmp] ambient_nondeterminism_allowed(),
     { unimplemented!() }
 }
